@@ -1,6 +1,6 @@
 """IMPL side of the C02 engines (see coq/Run/C02.v)."""
 from bitcoin.core import CBlock, CBlockHeader, CTransaction, CMutableTransaction
-from .txconv import tx_from_val, witness_from_val, header_from_val
+from .txconv import tx_from_val, witness_from_val, header_from_val, tx_from_val_any
 
 
 def make_block(h, txs):
@@ -13,7 +13,10 @@ def make_block(h, txs):
 
 def run(op, a):
     if op == 1:
-        t = tx_from_val(a[0])
+        # the immutable object is obtained, depending on the value, from the constructor or from the
+        # library's own parser fed with an accepted non-canonical encoding of the same value
+        v = a[0]
+        t = tx_from_val_any(v, style=(v[0] + v[4] + len(v[2])) % 3)
         m = tx_from_val(a[0], mutable=True)
         m2 = CMutableTransaction.from_tx(t)
         m2.wit = witness_from_val(a[1])
